@@ -160,7 +160,13 @@ func (p *Path) jsonIsEmpty(v Value) (empty bool, known bool) {
 		if x.M == nil {
 			return true, true
 		}
-		return false, false
+		n := p.mapLen(x)
+		if n.IsConst() {
+			return n.Val == 0, true
+		}
+		// whether the map is empty decides whether the key appears in the file at all (and so
+		// whether a decoder leaves a nil map behind): both cases are explored
+		return p.branch(p.tc.Eq(n, p.tc.Const(64, 0))), true
 	case *IfaceV:
 		return x.Typ == nil, true
 	}
